@@ -124,13 +124,9 @@ func apply(db *localstore.DB, w *world, o opRec) (err error) {
 		}
 		err = db.Set(ctx, setModes[o.Mode], addrs...)
 	case "collect":
-		for r := 0; r < 6; r++ {
-			var done bool
-			_, done, err = db.VerifCollectGarbage()
-			if err != nil || done {
-				break
-			}
-		}
+		// ONE collection run: each run commits on its own, so a loop of runs is a sequence of
+		// operations (the generator emits several "collect" operations in a row)
+		_, _, err = db.VerifCollectGarbage()
 	}
 	return err
 }
@@ -300,7 +296,9 @@ func genHistory(rng *rand.Rand, nU int) []opRec {
 				hist = append(hist, opRec{Op: "set", Mode: "pin", Root: r, Chunks: []int{3 + rng.Intn(nU-3)}})
 			}
 		}
-		hist = append(hist, opRec{Op: "collect", Root: -1})
+		for r := 0; r <= rng.Intn(3); r++ {
+			hist = append(hist, opRec{Op: "collect", Root: -1})
+		}
 		n += len(hist)
 	}
 	for len(hist) < n {
@@ -347,7 +345,9 @@ func genHistory(rng *rand.Rand, nU int) []opRec {
 			}
 			hist = append(hist, opRec{Op: "set", Mode: mode, Root: root, Chunks: []int{ch}})
 		default:
-			hist = append(hist, opRec{Op: "collect", Root: -1})
+			for r := 0; r <= rng.Intn(3); r++ {
+				hist = append(hist, opRec{Op: "collect", Root: -1})
+			}
 		}
 	}
 	return hist
@@ -356,7 +356,7 @@ func genHistory(rng *rand.Rand, nU int) []opRec {
 func TestCrashPoints(t *testing.T) {
 	run := obs.Start(t, "C14")
 	defer run.Done()
-	run.Rule("for random histories of 14..24 localstore operations (puts in all modes, single and multi-chunk, with and without file context; pin / unpin / remove; collection loops; capacity 6 so collection really evicts; every fifth history contains one Put of 17..20 full-size chunks, i.e. more than 4 MiB in one batch) and for EVERY operation i and EVERY k in [0, W_i) where W_i is the number of storage-driver writes (Put / Delete / batch Commit) the operation performs: restore the key-value content from before operation i into a fresh leveldb, run operation i with write k and all later writes vanishing, then reopen with the real localstore.New and dump all indexes; distinct = (operation kind and mode, W_i, k)",
+	run.Rule("for random histories of 14..24 localstore operations (puts in all modes, single and multi-chunk, with and without file context; pin / unpin / remove; collection runs (1-3 in a row); capacity 6 so collection really evicts; every fifth history contains one Put of 17..20 full-size chunks, i.e. more than 4 MiB in one batch) and for EVERY operation i and EVERY k in [0, W_i) where W_i is the number of storage-driver writes (Put / Delete / batch Commit) the operation performs: restore the key-value content from before operation i into a fresh leveldb, run operation i with write k and all later writes vanishing, then reopen with the real localstore.New and dump all indexes; distinct = (operation kind and mode, W_i, k)",
 		"crash granularity is one driver write; leveldb's own atomicity of a single write / batch is trusted",
 		"the chunkinfo collaborator of collection is a stub reporting each cached file's chunks",
 		"only index relations that hold at every clean quiescent point of the same history are required after a crash")
